@@ -193,63 +193,82 @@ def nontrivial_key(op, args, out):
 # ---------------------------------------------------------------- laws (search oracle)
 
 def laws_on_impl(provs, tier, seed, known_open, budget_s=120):
-    """Evaluate the C13 laws on the implementation; return first failing input not listed as known."""
+    """The C13 theorems (Props/C13.lean) as executable predicates on the implementation, with exactly the
+    theorems' hypotheses (WF configuration = win_paths off; Absolute folder; HasName relative part).
+    Returns the first failing input not listed as a known finding."""
     import time as _t
     t0 = _t.time()
     rng = rng_for(seed, "c13laws")
     pool = list(strings_upto(3)) + structured_paths(rng, 400)
-    rels = ["x", "x/y", "a b", "X.txt", "\u00e9/z", "x\\y", "/x/", "//x"]
+    rels = ["x", "x/y", "a b", "X.txt", "\u00e9/z", "x\\y", "/x/", "//x", "A", ".."]
     from cloudsync.cs import CloudSync
 
     def fail(law, cfg, **kw):
         return {"law": law, "config": {"case_sensitive": cfg[0], "win_paths": cfg[1], "alt_sep": cfg[2]}, "input": kw}
 
     def known(law, cfg, **kw):
-        ident = law_ident(law, cfg, kw)
-        return ident in known_open
+        return law_ident(law, cfg, kw) in known_open
 
-    for cfg in CONFIGS:
+    wf = [c for c in CONFIGS if not c[1]]
+    for cfg in wf:
         p = provs[cfg]
+        alt = cfg[2]
+
+        def absolute(s):
+            return p.normalize_path_separators(s).startswith("/")
+
+        def hasname(r):
+            return any(ch != "/" and not (alt and ch == "\\") for ch in r)
+
         for s in pool:
             if _t.time() - t0 > budget_s:
                 return None
             try:
-                n = p.normalize_path(s)
-                if p.normalize_path(n) != n and not known("normalize_idem", cfg, p=s):
-                    return fail("normalize_idem", cfg, p=s)
-                nd = p.normalize_path(s, True)
-                if p.normalize_path(nd, True) != nd and not known("normalize_idem_display", cfg, p=s):
-                    return fail("normalize_idem_display", cfg, p=s)
                 ns = p.normalize_path_separators(s)
-                if p.normalize_path_separators(ns) != ns and not known("normseps_idem", cfg, p=s):
-                    return fail("normseps_idem", cfg, p=s)
+                if p.normalize_path_separators(ns) != ns and not known("normSeps_idem", cfg, p=s):
+                    return fail("normSeps_idem", cfg, p=s)
+                for fd in (False, True):
+                    n = p.normalize_path(s, fd)
+                    if p.normalize_path(n, fd) != n and not known("normalizePath_idem", cfg, p=s, fd=fd):
+                        return fail("normalizePath_idem", cfg, p=s, fd=fd)
+                if not cfg[0]:
+                    if p.normalize_path(s, True).lower() != p.normalize_path(s, False):
+                        return fail("pathsMatch_display_leaf", cfg, p=s)
+                    if p.basename(p.normalize_path(s, True)) != provs[(True, False, alt)].basename(provs[(True, False, alt)].normalize_path(s, False)):
+                        return fail("pathsMatch_display_leaf_basename", cfg, p=s)
                 if s:
                     d, b = p.split(s)
                     if not p.paths_match(p.join(d, b), s) and not known("split_join", cfg, p=s):
                         return fail("split_join", cfg, p=s)
-                if not p.paths_match(s, s) and not known("match_refl", cfg, p=s):
-                    return fail("match_refl", cfg, p=s)
-                for rel in rels:
-                    j = p.join(s, rel)
-                    if s and p.normalize_path_separators(s):
+                if not p.paths_match(s, s):
+                    return fail("pathsMatch_refl", cfg, p=s)
+                if absolute(s):
+                    for rel in rels:
+                        if not hasname(rel):
+                            continue
+                        j = p.join(s, rel)
                         r = p.is_subpath(s, j)
-                        if not r and not known("subpath_join", cfg, f=s, rel=rel):
-                            return fail("subpath_join", cfg, f=s, rel=rel)
-                        if r and not p.paths_match(p.join(s, r), j) and not known("subpath_join_rel", cfg, f=s, rel=rel):
-                            return fail("subpath_join_rel", cfg, f=s, rel=rel)
-                        if r:
-                            moved = p.replace_path(j, s, "/to")
-                            if not p.paths_match(moved, p.join("/to", r)) and not known("replace_join", cfg, f=s, rel=rel):
-                                return fail("replace_join", cfg, f=s, rel=rel)
-                fn = p.normalize_path_separators(s)
-                if fn and fn != "/" and len(fn) > 0:
-                    sib = fn + "x/y"
-                    if p.is_subpath(s, sib) and not known("prefix_sibling", cfg, f=s, t=sib):
-                        return fail("prefix_sibling", cfg, f=s, t=sib)
-            except Exception as e:  # totality is a law too
+                        if not r or p.join(s, r) != j:
+                            if not known("isSubpath_join", cfg, f=s, rel=rel):
+                                return fail("isSubpath_join", cfg, f=s, rel=rel, got=r)
+                            continue
+                        for to in ("/to", "/", "t", "//t/"):
+                            try:
+                                m = p.replace_path(j, s, to)
+                            except ValueError:
+                                m = None
+                            if m is None or not p.paths_match(m, p.join(to, rel)):
+                                if not known("replacePath_join", cfg, f=s, rel=rel, to=to):
+                                    return fail("replacePath_join", cfg, f=s, rel=rel, to=to, got=m)
+                if ns and ns != "/":
+                    for x in "xA." + ("" if alt else "\\"):
+                        for t in ("", "/y", "y/z", "//"):
+                            for strict in (False, True):
+                                if p.is_subpath(s, ns + x + t, strict) is not False and not known("isSubpath_prefix_sibling", cfg, f=s, x=x, t=t):
+                                    return fail("isSubpath_prefix_sibling", cfg, f=s, target=ns + x + t, strict=strict)
+            except Exception as e:  # the model is total: an exception is a law failure too
                 if not known("total", cfg, p=s):
                     return fail("total", cfg, p=s, exc=repr(e))
-        # symmetry / transitivity / roundtrip on sampled pairs
         for _ in range(3000 if tier == "quick" else 30000):
             if _t.time() - t0 > budget_s:
                 return None
@@ -257,43 +276,50 @@ def laws_on_impl(provs, tier, seed, known_open, budget_s=120):
             b = rng.choice(variants(rng, a))
             c = rng.choice(variants(rng, b))
             try:
-                if p.paths_match(a, b) != p.paths_match(b, a) and not known("match_symm", cfg, a=a, b=b):
-                    return fail("match_symm", cfg, a=a, b=b)
-                if p.paths_match(a, b) and p.paths_match(b, c) and not p.paths_match(a, c) and not known("match_trans", cfg, a=a, b=b, c=c):
-                    return fail("match_trans", cfg, a=a, b=b, c=c)
-                if p.paths_match(a, b) != (p.normalize_path(a) == p.normalize_path(b)):
-                    return fail("match_iff_normalize", cfg, a=a, b=b)
+                for fd in (False, True):
+                    if p.paths_match(a, b, fd) != p.paths_match(b, a, fd):
+                        return fail("pathsMatch_symm", cfg, a=a, b=b, fd=fd)
+                    if p.paths_match(a, b, fd) and p.paths_match(b, c, fd) and not p.paths_match(a, c, fd):
+                        return fail("pathsMatch_trans", cfg, a=a, b=b, c=c, fd=fd)
+                    if p.paths_match(a, b, fd) != (p.normalize_path(a, fd) == p.normalize_path(b, fd)):
+                        return fail("pathsMatch_iff_normalize", cfg, a=a, b=b, fd=fd)
             except Exception as e:
-                if not known("total", cfg, p=a) and not known("total", cfg, p=b) and not known("total", cfg, p=c):
-                    return fail("total", cfg, a=a, b=b, c=c, exc=repr(e))
-        for cfg2 in CONFIGS:
+                return fail("total", cfg, a=a, b=b, c=c, exc=repr(e))
+        for cfg2 in wf:
             q = provs[cfg2]
-            for r1 in ["/", "/r", "/R/s", "/a b"]:
-                for r2 in ["/", "/t", "/T/u"]:
+            same_alt = (not cfg2[2]) or cfg2[2] == cfg[2]   # translate_roundtrip_partial: alt of target none or equal
+            for r1 in ["/", "/r", "/R/s", "/a b", "r", "/r/"]:
+                for r2 in ["/", "/t", "/T/u", "\\t"]:
                     fwd = TranslateShim((q, p), (r2, r1))   # translate(0, path in p) -> q
                     back = TranslateShim((p, q), (r1, r2))  # translate(0, path in q) -> p
-                    for rel in ["", "/x", "/X/y.txt", "/a b/\u00e9", "x", "/..", "//x"]:
-                        path = r1 + rel if r1 != "/" or rel.startswith("/") else r1 + rel
+                    abs1 = p.normalize_path_separators(r1).startswith("/")
+                    abs2 = q.normalize_path_separators(r2).startswith("/")
+                    rn = p.normalize_path_separators(r1)
+                    paths = [r1 + rel for rel in ["", "/x", "/X/y.txt", "/a b/\u00e9", "x", "/..", "//x", "\\w"]] + [rn.upper() + "/Q", "/other", ""]
+                    for path in paths:
                         try:
                             t = CloudSync.translate(fwd, 0, path)
-                            inside = bool(p.is_subpath(r1, path))
-                            if inside and t is None:
-                                return fail("translate_inside_some", cfg, cfg2=cfg2, r1=r1, r2=r2, path=path)
+                            inside = p.is_subpath(r1, path) is not False
                             if not inside and t is not None:
-                                return fail("translate_outside_none", cfg, cfg2=cfg2, r1=r1, r2=r2, path=path)
-                            if t is not None:
-                                if not q.is_subpath(r2, t):
-                                    return fail("translate_lands_in_root", cfg, cfg2=cfg2, r1=r1, r2=r2, path=path, got=t)
+                                return fail("translate_outside_none", cfg, cfg2=cfg_tok(cfg2), r1=r1, r2=r2, path=path, got=t)
+                            if inside and t is None:
+                                return fail("translate_inside_some", cfg, cfg2=cfg_tok(cfg2), r1=r1, r2=r2, path=path)
+                            if t is not None and abs2 and q.is_subpath(r2, t) is False:
+                                return fail("translate_lands_in_root", cfg, cfg2=cfg_tok(cfg2), r1=r1, r2=r2, path=path, got=t)
+                            if t is not None and abs1 and abs2 and same_alt:
                                 bk = CloudSync.translate(back, 0, t)
                                 if bk is None or not p.paths_match(bk, path):
-                                    if not known("translate_roundtrip", cfg, cfg2=cfg2, r1=r1, r2=r2, path=path):
-                                        return fail("translate_roundtrip", cfg, cfg2=cfg2, r1=r1, r2=r2, path=path, got=t, back=bk)
-                            for sib in [r1 + "x", r1 + "x/y", r1.upper() + "X/q"]:
-                                if r1 != "/" and CloudSync.translate(fwd, 0, sib) is not None and not p.is_subpath(r1, sib):
-                                    return fail("translate_prefix_sibling", cfg, cfg2=cfg2, r1=r1, r2=r2, path=sib)
+                                    if not known("translate_roundtrip", cfg, cfg2=cfg_tok(cfg2), r1=r1, r2=r2, path=path):
+                                        return fail("translate_roundtrip", cfg, cfg2=cfg_tok(cfg2), r1=r1, r2=r2, path=path, got=t, back=bk)
                         except Exception as e:
-                            if not known("total", cfg, p=path):
-                                return fail("total", cfg, cfg2=cfg2, r1=r1, r2=r2, path=path, exc=repr(e))
+                            return fail("total", cfg, cfg2=cfg_tok(cfg2), r1=r1, r2=r2, path=path, exc=repr(e))
+                    if rn and rn != "/":
+                        for sib in [rn + "x", rn + "x/y", rn + "2/private.txt", rn + ".bak/z"]:
+                            try:
+                                if CloudSync.translate(fwd, 0, sib) is not None:
+                                    return fail("translate_prefix_sibling_none", cfg, cfg2=cfg_tok(cfg2), r1=r1, r2=r2, path=sib)
+                            except Exception as e:
+                                return fail("total", cfg, cfg2=cfg_tok(cfg2), r1=r1, r2=r2, path=sib, exc=repr(e))
     return None
 
 
